@@ -116,6 +116,10 @@ def build(cfg, events):
         elif tag == "request":
             _, d, m, issued, q_after_take, plan = e[:6]
             q0, puts = (e[6], e[7]) if len(e) >= 8 else (None, None)
+            if m in cur and m in out and cur[m]["plan"]:
+                # the previous work plan of this method never reached schedule.update: its requests were taken
+                # from the queue and neither counted nor put back
+                out[m].setdefault("no_update", []).append([cur[m]["day"], cur[m]["plan"]])
             dt = start + timedelta(days=d)
             cur[m] = {"date": [dt.year, dt.month, dt.day], "day": d, "crash": None,
                       "issued": [int(x) for x in issued], "queue_after_take": _queue(q_after_take),
@@ -242,7 +246,8 @@ def analyse(ctx, prop, cfg, res, oracle):
         for m, info in per.items():
             case, static, trace = info["case"], info["static"], info["trace"]
             tag = {"wholerun": {"cfg_seed": cfg.get("_verif_seed"), "program": tr["prog"], "sim": tr["sim"], "method": m,
-                                "two_run": cfg.get("_two_run"), "wide": cfg.get("_verif_wide")}}
+                                "two_run": cfg.get("_two_run"), "wide": cfg.get("_verif_wide"),
+                                "history": cfg.get("_history")}}
             case = dict(case, **tag)
             mcfg = (cfg.get("methods") or {}).get(m, {})
             for wa in cfg.get("wide_applied") or []:
@@ -279,6 +284,11 @@ def analyse(ctx, prop, cfg, res, oracle):
                                     f"planner holds {st['dep_years']}",
                                     {"wholerun": tag["wholerun"], "case": {"wholerun": tag["wholerun"]}})
                         break
+            for (dday, dplan) in info.get("no_update", [])[:3]:
+                ctx.violate(prop + ":wholerun:work-plan-never-reached-schedule-update",
+                            f"method {m}: the requests {dplan} planned on day {dday} were taken from the queue but the "
+                            f"schedule was not updated that day (neither completed nor put back)",
+                            {"wholerun": tag["wholerun"], "case": {"wholerun": tag["wholerun"]}})
             if case["kind"] == "followup":
                 followup_oracle(ctx, prop, tag["wholerun"], m, info)
                 continue
@@ -413,6 +423,51 @@ def two_run_stage(ctx, prop, oracle, seeds):
             shutil.rmtree(wd, ignore_errors=True)
 
 
+HISTORY_KINDS = ["surveys-per-year", "months", "period-start", "period-end", "site-count"]
+
+
+def history_cfgs(seed, kinds=None):
+    """(cfg_prev, cfg, what_differs): the configuration the user asks for and what an EARLIER run in the same
+    folder had (one defining leaf different, `harness.wholerun.prev_variant`), reproducible from the seed"""
+    from harness import wholerun as W
+
+    cfg = make_cfg(seed)
+    kinds = kinds or HISTORY_KINDS
+    for t in range(200):
+        prev, kind = W.prev_variant(cfg, random.Random(seed * 131 + t))
+        if kind in kinds:
+            cfg["_history"] = {"seed": seed, "kinds": list(kinds), "kind": kind}
+            return prev, cfg, kind
+    return None, cfg, None
+
+
+def history_stage(ctx, prop, oracle, jobs):
+    """a property must hold for the run the user asked for WHATEVER was run in that folder before: `cfg_prev`
+    is run first, then `cfg` in the same folder; conformance and all oracles are applied to the second run against
+    `cfg` (its own parameter and input files)"""
+    from harness import wholerun as W
+
+    for (seed, kinds) in jobs:
+        prev, cfg, kind = history_cfgs(seed, kinds)
+        if prev is None:
+            ctx.count("skip:history-no-variant-of-the-wanted-kind")
+            continue
+        res = W.run_after(prev, cfg)
+        try:
+            if getattr(res, "prev_rc", 0) != 0:
+                ctx.count("history:first-run-stopped")
+            analyse(ctx, prop, cfg, res, oracle)
+            ctx.count("history:" + kind)
+        finally:
+            res.cleanup()
+
+
+def history_jobs(ctx, n):
+    """n histories with different `what_differs` (rotating through the kinds that reach the schedules)"""
+    off = ctx.rng.randrange(len(HISTORY_KINDS))
+    return [(ctx.rng.randrange(1 << 30), [HISTORY_KINDS[(off + k) % len(HISTORY_KINDS)]]) for k in range(n)]
+
+
 def run_all(ctx, prop, oracle, cfgs=None):
     from harness import wholerun as W
 
@@ -477,11 +532,11 @@ def mode_stage(ctx, prop, oracle, n):
 
 def wide_list(ctx):
     """the `wide` argument of the wide configurations of a tier: the tags that matter for the schedules, single
-    tags and pairs of them, and one all-tags run (quick 2, thorough 9)"""
+    tags and pairs of them, one all-tags run, one run with more than one batch of simulations (quick 2, thorough 10)"""
     if ctx.quick:
         return [WIDE_TAGS, True]
     return [WIDE_TAGS, True, ["crews", "workday"], ["years", "months", "freq"], ["weather", "followup"],
-            ["crews"], ["workday"], ["freq", "months"], ["sims", "delays", "years"]]
+            ["crews"], ["workday"], ["freq", "months"], ["sims", "delays", "years"], ["sims-batch", "fractional"]]
 
 
 def run_c07(ctx):
@@ -491,7 +546,12 @@ def run_c07(ctx):
     wl = wide_list(ctx)
     cfgs = configs(ctx, ctx.pick(1, 8)) + configs(ctx, len(wl), wl)
     ctx.count("wholerun_wide_configs", len(wl))
-    run_all(ctx, "C07", orc, cfgs)
+    jobs = history_jobs(ctx, ctx.pick(1, 2))
+    with concurrent.futures.ThreadPoolExecutor(max_workers=2) as ex:
+        f1 = ex.submit(run_all, ctx, "C07", orc, cfgs)
+        f2 = ex.submit(history_stage, ctx, "C07", orc, jobs)
+        f1.result()
+        f2.result()
     mode_stage(ctx, "C07", orc, ctx.pick(1, 3))
 
 
@@ -500,18 +560,24 @@ def run_c06(ctx):
 
     orc = lambda c, case, static, trace: c06.oracle_trace(c, case, static, trace)  # noqa: E731
     wl = wide_list(ctx)
-    cfgs = configs(ctx, ctx.pick(1, 6)) + configs(ctx, len(wl), wl)       # drawn here: the seeds stay reproducible
+    # quick: the plain shape is covered by run 1 of the two-run history and by the second run of the generic history
+    cfgs = configs(ctx, ctx.pick(0, 4)) + configs(ctx, len(wl), wl)       # drawn here: the seeds stay reproducible
     ctx.count("wholerun_wide_configs", len(wl))
-    seeds = [ctx.rng.randrange(1 << 30) for _ in range(ctx.pick(1, 4))]
+    seeds = [ctx.rng.randrange(1 << 30) for _ in range(ctx.pick(1, 3))]
     seeds[0] = seeds[0] - seeds[0] % 3 + 1                               # the first history edits parameters only
     if len(seeds) > 1:
         seeds[1] = seeds[1] - seeds[1] % 3                               # the second one also the input files
-    with concurrent.futures.ThreadPoolExecutor(max_workers=2) as ex:
-        # the plain configurations and the two-run histories side by side (each is mostly a child process)
+    jobs = history_jobs(ctx, ctx.pick(1, 4))
+    with concurrent.futures.ThreadPoolExecutor(max_workers=3) as ex:
+        # the plain / wide configurations, the two-run histories (run 2 edits frequency / months / years / site
+        # deployment under the same labels) and the generic histories (harness.wholerun.prev_variant: surveys per
+        # year, months, period start, period end, site count) side by side; each is mostly a child process
         f1 = ex.submit(run_all, ctx, "C06", orc, cfgs)
         f2 = ex.submit(two_run_stage, ctx, "C06", orc, seeds)
+        f3 = ex.submit(history_stage, ctx, "C06", orc, jobs)
         f1.result()
         f2.result()
+        f3.result()
     if not ctx.quick:
         mode_stage(ctx, "C06", orc, 2)
 
@@ -521,6 +587,14 @@ def _replay(ctx, prop, inp):
 
     w = inp.get("wholerun") or inp.get("case", {}).get("wholerun")
     seed = w.get("cfg_seed", w.get("seed_cfg"))
+    if w.get("history"):
+        from harness.props import c06 as _c06h, c07 as _c07h
+        orc = (lambda c, case, static, trace: _c07h.oracle_trace(c, case, trace, static=static)) if prop == "C07" else \
+            (lambda c, case, static, trace: _c06h.oracle_trace(c, case, static, trace))
+        history_stage(ctx, prop, orc, [(w["history"]["seed"], w["history"]["kinds"])])
+        for v in ctx.violations:
+            print("oracle:", v["signature"], "-", v["what"])
+        return 1 if (ctx.violations or ctx.disagreements) else 0
     if w.get("two_run"):
         import shutil
         import tempfile
